@@ -266,7 +266,7 @@ fn oracle_xlsx(case: &XlsxCase) -> Report {
 fn run(ctx: &mut Ctx) {
     builtin_sweep(ctx);
     let n = ctx.n(20_000, 1_000_000);
-    ctx.run("language", n, fmt_strategy, oracle_language);
+    ctx.run_fast("language", n, fmt_strategy, oracle_language);
     exhaustive_short(ctx, if ctx.quick() { 5 } else { 6 });
     let n = ctx.n(1500, 40_000);
     ctx.run("xlsx", n, xlsx_case_strategy, oracle_xlsx);
